@@ -4,7 +4,7 @@
    optimiser kernels). *)
 From Coq Require Import Reals Lra List.
 From Coquelicot Require Import Complex.
-From SpdVerif Require Import Base.NumOps Model.NumInst Spec.ConfigSpec Model.ConfigTypes Model.Config Model.Spectrum.
+From SpdVerif Require Import Base.CfgNumOps Model.NumInst Spec.ConfigSpec Model.ConfigTypes Model.Config Model.NormSpectrum.
 Import ListNotations.
 Local Open Scope R_scope.
 
@@ -29,7 +29,7 @@ Section Proofs.
   Lemma jsa_center_is so ws wi :
     sqrt (norm_jsi so ws wi) * Cmod (jsa_raw so ws wi) = Cmod (jsa_of so ws wi).
   Proof.
-    unfold Spectrum.jsa_of. cbv zeta. destruct (Ceq_dec (jsa_raw so ws wi) 0) as [H0 | H0].
+    unfold NormSpectrum.jsa_of. cbv zeta. destruct (Ceq_dec (jsa_raw so ws wi) 0) as [H0 | H0].
     - rewrite H0, Cmod_0. ring.
     - rewrite Cmod_mult, Cmod_R, Rabs_pos_eq by apply sqrt_pos. reflexivity.
   Qed.
@@ -37,7 +37,7 @@ Section Proofs.
   Lemma jsi_center_is so ws wi : 0 <= norm_jsi so ws wi ->
     (sqrt (norm_jsi so ws wi) * Cmod (jsa_raw so ws wi)) ^ 2 = jsi_of so ws wi.
   Proof.
-    intros Hn. unfold Spectrum.jsi_of. cbv zeta. destruct (Ceq_dec (jsa_raw so ws wi) 0) as [H0 | H0].
+    intros Hn. unfold NormSpectrum.jsi_of. cbv zeta. destruct (Ceq_dec (jsa_raw so ws wi) 0) as [H0 | H0].
     - rewrite H0, Cmod_0. ring.
     - rewrite Rpow_mult_distr. replace (sqrt (norm_jsi so ws wi) ^ 2) with (norm_jsi so ws wi); [reflexivity |].
       simpl. rewrite Rmult_1_r, sqrt_sqrt; auto.
@@ -45,7 +45,7 @@ Section Proofs.
 
   Lemma singles_center_is so ws wi : norm_singles so ws wi * singles_raw so ws wi = singles_of so ws wi.
   Proof.
-    unfold Spectrum.singles_of. cbv zeta. destruct (Req_EM_T (singles_raw so ws wi) 0) as [H0 | H0]; [rewrite H0; ring | reflexivity].
+    unfold NormSpectrum.singles_of. cbv zeta. destruct (Req_EM_T (singles_raw so ws wi) 0) as [H0 | H0]; [rewrite H0; ring | reflexivity].
   Qed.
 
   Lemma new_ok s j : new s = Ok j ->
@@ -54,7 +54,7 @@ Section Proofs.
       js_singles_center j = singles_of so (fst (center so)) (snd (center so)).
   Proof.
     unfold joint_spectrum_new. destruct (try_as_optimum R_ops K minpos op oi s) as [[so nf] | |]; try discriminate.
-    unfold Spectrum.center. cbn [fst snd]. intros H. inversion H. subst j. cbn [js_spdc js_jsa_center js_singles_center].
+    unfold NormSpectrum.center. cbn [fst snd]. intros H. inversion H. subst j. cbn [js_spdc js_jsa_center js_singles_center].
     exists so, nf. repeat split; auto using jsa_center_is, singles_center_is.
   Qed.
 
@@ -68,7 +68,7 @@ Section Proofs.
   Proof.
     intros Hn Ho. destruct (new_ok s j Hn) as (so' & nf' & Ho' & Hs & Hc1 & Hc2).
     rewrite Ho in Ho'. inversion Ho'. subst so' nf'.
-    unfold Spectrum.center in *. cbn [fst snd] in *.
+    unfold NormSpectrum.center in *. cbn [fst snd] in *.
     unfold jsa_normalized, jsi_normalized, jsi_singles_normalized, jsa, jsi, jsi_singles. rewrite Hs, Hc1, Hc2.
     repeat split.
     intros Hpos. rewrite <- jsa_center_is, jsi_center_is by assumption. reflexivity.
@@ -106,7 +106,7 @@ Section Proofs.
     (singles_of so w0s w0i <> 0 -> jsi_singles_normalized singles_raw norm_singles j w0s w0i = 1).
   Proof.
     intros Ho Hn. pose proof (normalised_def so j so nf) as Hd.
-    unfold Spectrum.center in *. cbn [fst snd] in *.
+    unfold NormSpectrum.center in *. cbn [fst snd] in *.
     repeat split.
     - intros Hne. destruct (Hd (freq (s_signal so)) (freq (s_idler so)) Hn Ho) as (H1 & _ & _). rewrite H1.
       assert (Hm : Cmod (jsa_of so (freq (s_signal so)) (freq (s_idler so))) <> 0).
@@ -137,12 +137,12 @@ Section Proofs.
     jsi_values_normalized K minpos op oi jsa_raw norm_jsi freq base setups =
     Ok (map (fun v => v / jsi_of opt (fst (center opt)) (snd (center opt))) (jsi_values jsa_raw norm_jsi freq setups)).
   Proof.
-    intros Ho. unfold jsi_values_normalized, jsi_values. rewrite Ho. unfold Spectrum.center. cbn [fst snd].
+    intros Ho. unfold jsi_values_normalized, jsi_values. rewrite Ho. unfold NormSpectrum.center. cbn [fst snd].
     f_equal. rewrite map_map. apply map_ext. intros s.
     set (ws := freq (s_signal s)). set (wi := freq (s_idler s)).
     set (w0s := freq (s_signal opt)). set (w0i := freq (s_idler opt)).
     assert (Href : Cmod (jsa_raw opt w0s w0i) ^ 2 * norm_jsi opt w0s w0i = jsi_of opt w0s w0i).
-    { unfold Spectrum.jsi_of. cbv zeta. destruct (Ceq_dec (jsa_raw opt w0s w0i) 0) as [H0 | H0]; [rewrite H0, Cmod_0; ring | ring]. }
+    { unfold NormSpectrum.jsi_of. cbv zeta. destruct (Ceq_dec (jsa_raw opt w0s w0i) 0) as [H0 | H0]; [rewrite H0, Cmod_0; ring | ring]. }
     rewrite Href.
     destruct (Req_EM_T (Cmod (jsa_raw s ws wi) ^ 2) 0); unfold Rdiv; ring.
   Qed.
